@@ -111,9 +111,12 @@ def raises_wrapper(n: ast.AST):
     if not (isinstance(n, ast.With) and len(n.items) == 1 and n.items[0].optional_vars is None and len(n.body) == 1):
         return None
     c = n.items[0].context_expr
-    if (isinstance(c, ast.Call) and ast.unparse(c.func) == "pytest.raises" and len(c.args) == 1
-            and not c.keywords and isinstance(c.args[0], ast.Name)):
-        return c.args[0].id, n.body[0]
+    if isinstance(c, ast.Call) and ast.unparse(c.func) == "pytest.raises" and len(c.args) == 1 and not c.keywords:
+        e = c.args[0]
+        while isinstance(e, ast.Attribute):      # Owner.Error: the root name is what must be bound
+            e = e.value
+        if isinstance(e, ast.Name):
+            return e.id, n.body[0]
     return None
 
 
@@ -252,6 +255,13 @@ def judge_file(src: str, fname: str, result: dict) -> list[tuple[str, str]]:
     if bad:
         return bad
     names = [f.name for f in test_functions(mod)]
+    for (_f, tname), (outcome, detail) in result["tests"].items():
+        # pytest ran something the file does not define: an object of the SUT imported by name
+        if not (_f == fname or fname[:-3] in _f):
+            continue
+        if tname.split("[")[0] not in names and "::" not in tname:
+            bad.append((f"sut-name-collected-as-test:{outcome}", f"{fname}: pytest collected `{tname}`, which the file only imports "
+                        f"from the module under test, and reports {outcome}: {detail[:200]}"))
     if len(set(names)) != len(names):
         bad.append(("duplicate-test-name", f"{fname}: {names}"))
     for f in test_functions(mod):
